@@ -20,7 +20,8 @@ ASSUMPTIONS = ['NumPy recurrences on the matricised operator are the reference',
 CHUNK = 4
 STEPLISTS = {'const1': [1.0], 'const2': [1.0, 1.0], 'vary3': [1.0, 2.0, 0.5],
              'close3': [1.0, 1.0 + 3e-6, 1.0 + 6e-6],      # consecutive steps that differ only slightly
-             'tiny_fast': [1e-8, 8e-8]}                    # tiny steps on a fast operator (operator scaled by 1e8): same h*A
+             'tiny_fast': [1e-8, 8e-8],
+             'stiff': [1e7, 1e8]}                          # h*||A|| = 1e6, 1e7: implicit steps with cond(I - hA) of that size                    # tiny steps on a fast operator (operator scaled by 1e8): same h*A
 
 
 def space(tier):
@@ -48,6 +49,11 @@ def cases(tier):
             for fam in ('real', 'markov'):
                 for rx in admissible_ranks(list(dims)):
                     yield {'kind': 'schemes', 'dims': list(dims), 'ro': min(2, d), 'fam': fam, 'rx': rx, 'steps': 'const1', 'h': 0.1}
+    # stiff implicit steps on Markov generators (I - hG is a non-singular M-matrix of condition ~ h*||G||)
+    for d in (1, 2, 3):
+        for dims in itertools.product([2, 3], repeat=d):
+            for rx in admissible_ranks(list(dims)):
+                yield {'kind': 'schemes', 'dims': list(dims), 'ro': min(2, d), 'fam': 'markov', 'rx': rx, 'steps': 'stiff', 'h': 0.1}
     # mixed dtypes: complex operator (complex entries only from its second core on) with real states and guesses ('cop'),
     # real operator with complex states ('cx')
     for d in (1, 2, 3):
@@ -179,13 +185,15 @@ def run_schemes(case, r, rng):
     r.nontrivial = case['steps'] != 'const1' or fam != 'real' or max(rx) > 1
     nzs = [0, 2] + ([1] if fam == 'markov' else [])
     o1 = ':order1' if d == 1 else ''
+    stiff = case['steps'] == 'stiff'
+    ttol = 1e-5 if stiff else 1e-8      # rounding grows with cond(I - hA) ~ 1e7 on the stiff list
 
     for nz in nzs:
         # ---- explicit Euler
         want = [x0]
         for hk in steps:
             want.append(normalise((I + hk * A) @ want[-1], nz))
-        for thr in (0, 1e-12):
+        for thr in (() if stiff else (0, 1e-12)):     # the stiff list is for the implicit Euler scheme only
             with r.op('explicit_euler%s:call' % o1):
                 sl_ = list(steps); sol = ode.explicit_euler(op, x0t, sl_, threshold=thr, max_rank=50, normalize=nz, progress=False)
                 r.true('explicit_euler:step-list-unchanged', sl_ == list(steps), 'step_sizes modified')
@@ -205,13 +213,15 @@ def run_schemes(case, r, rng):
                 with r.op('implicit_euler%s:call' % o1):
                     sl_ = list(steps); sol = ode.implicit_euler(op, x0t, guess, sl_, **kw)
                     r.true('implicit_euler:step-list-unchanged', sl_ == list(steps), 'step_sizes modified')
-                    compare_traj(r, 'implicit_euler%s:%s' % (o1, tsolver), sol, wi, x0t, dims)
+                    compare_traj(r, 'implicit_euler%s:%s' % (o1, tsolver), sol, wi, x0t, dims, ttol)
                     if nz:
                         r.true('implicit_euler:unit-norm', all(abs(s.norm(p=nz) - 1) <= 1e-9 for s in sol[1:]), 'normalize=%d' % nz)
+                if stiff:
+                    continue        # (I - hA/2)^-1 (I + hA/2) ~ -I at h*||A|| = 1e7: cancellation, not a defect of the scheme
                 with r.op('trapezoidal_rule%s:call' % o1):
                     sl_ = list(steps); sol = ode.trapezoidal_rule(op, x0t, guess, sl_, **kw)
                     r.true('trapezoidal_rule:step-list-unchanged', sl_ == list(steps), 'step_sizes modified')
-                    compare_traj(r, 'trapezoidal_rule%s:%s' % (o1, tsolver), sol, wt, x0t, dims)
+                    compare_traj(r, 'trapezoidal_rule%s:%s' % (o1, tsolver), sol, wt, x0t, dims, ttol)
                 r.true('implicit:guess-unchanged', unchanged(guess, sG), 'initial guess modified')
         # ---- HOD (constant step); the scheme is not positivity preserving, so the signed "1-norm" of the library is
         # outside its documented domain (non-negative entries) there: normalize in {0, 2} only
@@ -249,6 +259,20 @@ def run_schemes(case, r, rng):
                         r.true('hod:previous_value-unchanged', unchanged(pt, sP), 'previous_value modified')
                     if use_op:
                         r.true('hod:op_hod-unchanged', unchanged(kw['op_hod'], sH), 'op_hod modified')
+            # history: the SAME operator object again with half the step size (a refinement study)
+            hh = h / 2
+            S2 = sinh_series(A, hh, m)
+            prev = normalise(x0 - sinh_series(A, hh / 2, m) @ ((I - 0.5 * hh * A) @ x0), nz)
+            want = [x0]
+            for k in range(nsteps):
+                p = prev if k == 0 else want[k - 1]
+                want.append(normalise(p + S2 @ want[k], nz))
+            with r.op('hod%s:call' % o1):
+                sol = ode.hod(op, x0t, hh, nsteps, order=order, threshold=1e-14, max_rank=50, normalize=nz, progress=False)
+                compare_traj(r, 'hod%s:second-step-size' % o1, sol, want, x0t, dims, 1e-8)
+    if stiff:
+        r.true('schemes:inputs-unchanged', unchanged(op, sO) and unchanged(x0t, sX), 'operator or initial value modified')
+        return r
     # ---- error estimators on arbitrary lists
     pool = [x0t] + [tt_from(rand_cores(rng, dims, [1] * d, rr, fam in ('complex', 'cx'))) for rr in (rx, [1] * (d + 1))]
     pv = [vec(p) for p in pool]
